@@ -27,7 +27,7 @@ var c13Combos = []struct{ proto, codec, method string }{
 	{"grpcweb", "proto", "unary"}, {"grpcweb", "proto", "server"}, {"grpcweb", "proto", "bidi"}, {"grpcwebtext", "proto", "unary"}, {"grpcwebtext", "proto", "bidi"},
 	{"http", "json", "unary"}, {"http", "json", "client"}, {"http", "json", "server"}, {"http", "json", "bidi"},
 	{"http", "proto", "unary"}, {"http", "proto", "client"}, {"http", "proto", "server"}, {"http", "proto", "bidi"},
-	{"http", "body", "files"}, {"http", "body", "files"},
+	{"http", "body", "files"}, {"http", "body", "files"}, {"http", "body", "upload"},
 	{"http", "json", "bidisel"}, {"http", "proto", "bidisel"}, {"http", "json", "unarysel"}, {"http", "proto", "unarysel"},
 	{"ws", "json", "chat"}, {"ws", "json", "bidi"},
 }
@@ -39,7 +39,7 @@ func genMixedRequest(r *core.Rand, id int, limit int, allowFaults bool) ReqSpec 
 	switch sp.Method {
 	case "chat":
 		sp.PathVar = r.PickS("lobby", "a", "room-1")
-	case "files":
+	case "files", "upload":
 		sp.PathVar = r.PickS("cat.jpg", "a.bin")
 	case "bidisel":
 		sp.PathVar = r.PickS("a", "msg-1")
@@ -83,6 +83,16 @@ func genMixedRequest(r *core.Rand, id int, limit int, allowFaults bool) ReqSpec 
 		size := r.Pick(0, 1, 63, 64, 65, 1000, limit-1, limit, limit+1, 2*limit+1)
 		if size < 0 {
 			size = 0
+		}
+		if sp.Method == "upload" {
+			// a unary upload: one bounded read of the whole body (an empty body
+			// is "no body", C03's subject; one over the limit is C08's)
+			if size > limit-1 {
+				size = limit - 1
+			}
+			if size < 1 {
+				size = 1
+			}
 		}
 		sp.Msgs = []MsgSpec{{Size: size, Seed: r.U64() >> 8}}
 	}
@@ -170,6 +180,7 @@ func genMixedRequest(r *core.Rand, id int, limit int, allowFaults bool) ReqSpec 
 	if sp.Proto == "http" && r.Chance(1, 2) {
 		sp.Fault.Err = "ueof"
 	}
+	addZeroMessages(r, &sp)
 	return sp
 }
 
